@@ -61,6 +61,9 @@ type world struct {
 	ninst int
 	ctl   *vsync.Controller
 	cache ocache.OCache
+
+	cctx    context.Context // the context of RemoveC, ended by Cancel
+	ccancel context.CancelFunc
 }
 
 func (w *world) ev(e event) {
@@ -141,6 +144,10 @@ const (
 	opGC         opKind = "GC"
 	opClose      opKind = "Close"
 	opDoLocked   opKind = "DoLocked"
+	// RemoveC is Remove with a context that the Cancel operation of the same scenario ends at a scheduled moment:
+	// the remover's context can expire at any point, in particular while it waits behind another closer
+	opRemoveC opKind = "RemoveC"
+	opCancel  opKind = "Cancel"
 )
 
 func instOf(v ocache.Object) int {
@@ -185,6 +192,12 @@ func (w *world) run(name string, k opKind) {
 	case opRemove:
 		ok, err := c.Remove(context.Background(), "a")
 		ret(0, "a", fmt.Sprintf("remove:%v:%s", ok, errStr(err)))
+	case opRemoveC:
+		ok, err := c.Remove(w.cctx, "a")
+		ret(0, "a", fmt.Sprintf("remove:%v:%s", ok, errStr(err)))
+	case opCancel:
+		w.ccancel()
+		ret(0, "", "cancel")
 	case opRemoveSame:
 		v, err := c.Get(context.Background(), "a")
 		ret(instOf(v), "a", "get:"+errStr(err))
@@ -230,6 +243,7 @@ func (s scenario) sched() sched.Scenario {
 		w := &world{ctl: x.C}
 		// negative TTL: every idle entry is expired for GC without moving the (fake) clock; no ticker goroutine.
 		w.cache = ocache.New(w.load, ocache.WithTTL(-time.Hour), ocache.WithGCPeriod(0))
+		w.cctx, w.ccancel = context.WithCancel(context.Background())
 		x.Data = w
 		if s.Preload {
 			o := w.newObj("a")
@@ -419,6 +433,7 @@ func scenarios(c *vk.Ctx) (out []scenario) {
 	three := [][]opKind{
 		{opGet, opGet, opRemove}, {opGet, opRemove, opClose}, {opGet, opTryRemove, opGC}, {opGet, opGC, opClose},
 		{opGet, opRemove, opAdd}, {opRemove, opRemove, opGet}, {opTryRemove, opRemove, opGet}, {opGet, opGet, opClose},
+		{opRemove, opRemoveC, opCancel}, {opGC, opRemoveC, opCancel}, {opTryRemove, opRemoveC, opCancel}, {opGet, opRemoveC, opCancel},
 		{opRemoveSame, opGet, opRemove}, {opGC, opRemove, opPick}, {opTryRemove, opRemove, opRemove}, {opGC, opRemove, opRemove}, {opRemoveSame, opRemove, opGet}, {opGet, opPick, opRemove}, {opAdd, opRemove, opGet},
 	}
 	if c.Thorough() {
@@ -430,6 +445,7 @@ func scenarios(c *vk.Ctx) (out []scenario) {
 					three = append(three, []opKind{k3[i], k3[j], k3[k]})
 				}
 			}
+			three = append(three, []opKind{k3[i], opRemoveC, opCancel})
 		}
 	}
 	for _, pre := range []bool{false, true} {
@@ -440,7 +456,9 @@ func scenarios(c *vk.Ctx) (out []scenario) {
 	if c.Thorough() {
 		for _, pre := range []bool{false, true} {
 			out = append(out, scenario{pre, []opKind{opGet, opGet, opRemove, opClose}}, scenario{pre, []opKind{opGet, opTryRemove, opGC, opClose}},
-				scenario{pre, []opKind{opGet, opGetB, opGC, opClose}})
+				scenario{pre, []opKind{opGet, opGetB, opGC, opClose}},
+				scenario{pre, []opKind{opRemove, opRemoveC, opCancel, opGet}}, scenario{pre, []opKind{opGC, opRemoveC, opCancel, opGet}},
+				scenario{pre, []opKind{opRemove, opRemoveC, opCancel, opClose}})
 		}
 	}
 	return
